@@ -276,6 +276,7 @@ def extract(repo):
     grab('sync42MaxConcurrency', lambda: eval_int(const_int(read(repo, 'sync42/src/lib.rs'), 'MAX_CONCURRENCY')))
     grab('skipfreeDefaultMaxHeight', lambda: eval_int(const_int(read(repo, 'skipfree/src/lib.rs'), 'DEFAULT_MAX_HEIGHT')))
     grab('skipfreeBranching', lambda: eval_int(const_int(read(repo, 'skipfree/src/lib.rs'), 'BRANCHING')))
+    c09_consts(repo, grab)
     return out, notes
 
 SST_WIRE = {'uint64': 0, 'uint32': 0, 'int64': 0, 'int32': 0, 'sint64': 0, 'sint32': 0, 'Bool': 0, 'fixed64': 1, 'sfixed64': 1,
@@ -349,6 +350,65 @@ def sst_consts(repo, out, grab):
                             ('sstMetadata', 'struct', 'SstMetadata')]:
         grab(key + 'Fields', lambda kind=kind, name=name: [n for n, _ in sst_message_fields(lib, kind, name)])
         grab(key + 'Wire', lambda kind=kind, name=name: [w for _, w in sst_message_fields(lib, kind, name)])
+
+C09_CODES = ['CORRUPTION_FILE_TOO_SMALL', 'CORRUPTION_FINAL_BLOCK_OFFSET_TOO_LARGE', 'UNPACK_FINAL_BLOCK',
+             'CORRUPTION_BLOCK_METADATA_START_GTE_LIMIT', 'CORRUPTION_INDEX_BLOCK_RUNS_PAST_FILTER_BLOCK',
+             'CORRUPTION_FILTER_BLOCK_RUNS_PAST_FINAL_BLOCK', 'SYSTEM_ERROR', 'UNPACK_TABLE_ENTRY', 'CRC32C_FAILURE',
+             'CORRUPTION_TRIED_LOADING_FILTER_BLOCK_AS_PLAIN', 'CORRUPTION_TRIED_LOADING_FINAL_BLOCK_AS_PLAIN',
+             'CORRUPTION_TRIED_LOADING_PLAIN_BLOCK_AS_FILTER', 'CORRUPTION_TRIED_LOADING_FINAL_BLOCK_AS_FILTER',
+             'CORRUPTION_BAD_FILTER_BLOCK', 'BLOCK_TOO_SMALL', 'CORRUPTION_META_BLOCK_NULL_VALUE', 'UNPACK_BLOCK_METADATA']
+
+def c09_consts(repo, grab):
+    """damaged files (C09): the error codes the SST reader answers with, the field types of the
+    messages read from hostile bytes, whether the log replay propagates reader errors (D-3), and
+    the two places where the manifest reader does or does not poison itself"""
+    lib = read(repo, 'sst/src/lib.rs')
+    def codes():
+        r = []
+        for n in C09_CODES:
+            m = re.search(r'pub const CODE_%s\s*:\s*&str\s*=\s*"([^"]+)"' % n, lib)
+            if not m:
+                raise Missing('CODE_' + n)
+            r.append(m.group(1))
+        return r
+    grab('sstReadErrorCodes', codes)
+    def types(kind, name):
+        m = re.search(r'\b%s\s+%s\b[^{]*\{(.*?)\n\}' % (kind, name), lib, re.S)
+        if not m:
+            raise Missing(name)
+        fs = re.findall(r'#\[prototk\(\s*\d+\s*,\s*([A-Za-z0-9_]+)', sst_strip_comments(m.group(1)))
+        if not fs:
+            raise Missing(name + ' field types')
+        return fs
+    grab('finalBlockTypes', lambda: types('struct', 'FinalBlock'))
+    grab('blockMetadataTypes', lambda: types('struct', 'BlockMetadata'))
+    grab('sstEntryTypes', lambda: types('enum', 'SstEntry'))
+    def trailer():
+        # `let position = file_size - 8;` and the eight-byte buffer read there
+        m = re.search(r'if file_size < (\d+) \{.*?let position = file_size - (\d+);', lib, re.S)
+        if not m or m.group(1) != m.group(2):
+            raise Missing('trailer size')
+        return int(m.group(1))
+    grab('sstTrailerBytes', trailer)
+    lg = read(repo, 'sst/src/log.rs')
+    def unwraps():
+        n = 0
+        for fn in ('log_to_builder', 'log_to_setsum'):
+            m = re.search(r'pub fn %s\b.*?\n\}\n' % fn, lg, re.S)
+            if not m:
+                raise Missing(fn)
+            n += len(re.findall(r'log_iter\.next\(\)\s*\.unwrap\(\)', m.group(0)))
+            if not re.search(r'log_iter\.next\(\)', m.group(0)):
+                raise Missing(fn + ': no log_iter.next()')
+        return n
+    grab('logReplayUnwraps', unwraps)
+    mani = read(repo, 'mani/src/lib.rs')
+    def nonascii_poisons():
+        m = re.search(r'if !line\.is_ascii\(\) \{\s*return ([^;]+);', mani)
+        if not m:
+            raise Missing('non-ASCII check of ManifestIterator::next')
+        return 1 if 'self.poison' in m.group(1) else 0
+    grab('maniNonAsciiPoisons', nonascii_poisons)
 
 def lean_str(x):
     return '"' + x.replace('\\', '\\\\').replace('"', '\\"') + '"'
